@@ -397,7 +397,13 @@ def replay(case: dict[str, typing.Any], ctx: Ctx, rec: Recorder) -> None:
         import urllib3.contrib.pyopenssl as pyo
 
         pyo.inject_into_urllib3()
+    import os
+    import tempfile
+
     certs = tlsnet.Certs()
+    empty_dir = tempfile.mkdtemp(prefix="vf-c07-capath-")
+    os.environ["SSL_CERT_FILE"] = certs.ca_file  # same default trust store as in run_shard
+    os.environ["SSL_CERT_DIR"] = empty_dir
     try:
         rec.case(case)
         run_point(rec, case, certs)
